@@ -257,7 +257,11 @@ func c17MoreScenarios() []c17Scn {
 	// asks for pending attestations
 	for _, variant := range []string{"false", "true", "true/real-subscriber"} {
 		reorg, realSub := variant != "false", strings.HasSuffix(variant, "real-subscriber")
-		scns = append(scns, c17Scn{name: "controller/headevent-attest-pending/reorg=" + variant, deviation: true, tail: int64(10 * time.Second), settle: int64(c03SlotDur) + int64(c03Delay) - int64(time.Second),
+		tb := 0
+		if reorg {
+			tb = 1 // two deviations in a controller that handles a reorg: 0.8 M executions in 25 - 40+ minutes per unit
+		}
+		scns = append(scns, c17Scn{name: "controller/headevent-attest-pending/reorg=" + variant, deviation: true, thoroughBound: tb, tail: int64(10 * time.Second), settle: int64(c03SlotDur) + int64(c03Delay) - int64(time.Second),
 			setup: func(ctx context.Context) []func() {
 				w := &c03World{attKinds: [2]string{"E", "C"}, propKinds: [2]string{"A", "A"}, reorgAt: -1}
 				ct := newChainTime(-(int64(c03Epoch0*c03SPE) * int64(c03SlotDur)), c03SlotDur, c03SPE)
